@@ -694,14 +694,20 @@ fn gen_history<L: Layer>(r: &mut Rng, w: &World, pool: &Pool, n: usize) -> Vec<O
     for _ in 0..n {
         let wi = if r.chance(70) { 0 } else { 1 };
         let id = |r: &mut Rng| (*r.pick(IDS)).to_string();
+        // ids of the right kind currently in the register (so that removals / links often hit something)
+        let view = regs[wi].view();
+        let statics: Vec<String> = view.policies.iter().filter(|(_, v)| v.0).map(|(k, _)| k.clone()).collect();
+        let links: Vec<String> = view.policies.iter().filter(|(_, v)| !v.0).map(|(k, _)| k.clone()).collect();
+        let tpls: Vec<String> = view.templates.iter().cloned().collect();
+        let biased = |r: &mut Rng, pool: &Vec<String>| -> String { if !pool.is_empty() && r.chance(75) { r.pick(pool).clone() } else { (*r.pick(IDS)).to_string() } };
         let op = match r.below(100) {
-            0..=17 => Op::Add { w: wi, id: id(r), text: r.pick(&pool.statics).clone() },
-            18..=21 => Op::AddStatic { w: wi, id: id(r), text: r.pick(&pool.statics).clone() },
-            22..=37 => Op::AddT { w: wi, id: id(r), text: r.pick(&pool.templates).clone() },
-            38..=62 => { let tid = id(r); let env = gen_env(r, w, &regs[wi], &tid); Op::Link { w: wi, tid, lid: id(r), env } }
-            63..=71 => Op::Unlink { w: wi, id: id(r) },
-            72..=80 => Op::RmStatic { w: wi, id: id(r) },
-            81..=89 => Op::RmTemplate { w: wi, id: id(r) },
+            0..=15 => Op::Add { w: wi, id: id(r), text: r.pick(&pool.statics).clone() },
+            16..=19 => Op::AddStatic { w: wi, id: id(r), text: r.pick(&pool.statics).clone() },
+            20..=35 => Op::AddT { w: wi, id: id(r), text: r.pick(&pool.templates).clone() },
+            36..=62 => { let tid = biased(r, &tpls); let env = gen_env(r, w, &regs[wi], &tid); Op::Link { w: wi, tid, lid: id(r), env } }
+            63..=73 => Op::Unlink { w: wi, id: biased(r, &links) },
+            74..=81 => Op::RmStatic { w: wi, id: biased(r, &statics) },
+            82..=89 => Op::RmTemplate { w: wi, id: biased(r, &tpls) },
             90..=96 => Op::Merge { w: wi, rename: r.chance(60) },
             _ => {
                 let text = r.pick(&pool.templates[..3]).clone();
@@ -835,6 +841,36 @@ fn exhaustive(args: &Args, out: &mut Out) {
             out.cases += 1;
         }
     }
+    // directed histories (both layers): the core-only situations the public API layer guards against, and merge corner cases
+    let pu = (Some(w.principal.clone()), None);
+    let directed: Vec<Vec<Op>> = vec![
+        // core: link to the body of a static policy, remove the static policy, unlink the dangling link
+        vec![Op::Add { w: 0, id: "a".into(), text: s0.clone() }, Op::Link { w: 0, tid: "a".into(), lid: "b".into(), env: (None, None) },
+             Op::RmStatic { w: 0, id: "a".into() }, Op::Unlink { w: 0, id: "b".into() }],
+        // failed remove_static on a link id (the link is re-inserted at the back), then merges observing the order
+        vec![Op::AddT { w: 0, id: "t".into(), text: t0.clone() }, Op::Link { w: 0, tid: "t".into(), lid: "a".into(), env: pu.clone() },
+             Op::Link { w: 0, tid: "t".into(), lid: "policy0".into(), env: pu.clone() }, Op::RmStatic { w: 0, id: "a".into() },
+             Op::Merge { w: 1, rename: true }, Op::Merge { w: 0, rename: true }, Op::Merge { w: 0, rename: false }],
+        // core: add of a template-linked policy whose id is the id of an existing template
+        vec![Op::AddT { w: 0, id: "t".into(), text: t0.clone() }, Op::AddLinked { w: 0, tid: "a".into(), text: t1.clone(), lid: "t".into(), env: (None, Some(w.resource.clone())) },
+             Op::Unlink { w: 0, id: "t".into() }, Op::RmTemplate { w: 0, id: "t".into() }, Op::RmTemplate { w: 0, id: "a".into() }],
+        // merge: every kind of collision at once, with and without renaming
+        vec![Op::Add { w: 0, id: "a".into(), text: s0.clone() }, Op::AddT { w: 0, id: "b".into(), text: t1.clone() },
+             Op::AddT { w: 0, id: "policy0".into(), text: t0.clone() }, Op::Link { w: 0, tid: "policy0".into(), lid: "policy1".into(), env: pu.clone() },
+             Op::Merge { w: 0, rename: false }, Op::Merge { w: 0, rename: true }, Op::Merge { w: 0, rename: true }, Op::Merge { w: 1, rename: true }],
+        // unlink / remove_template / remove_static on every kind of id
+        vec![Op::Add { w: 0, id: "a".into(), text: s1.clone() }, Op::AddT { w: 0, id: "t".into(), text: t0.clone() },
+             Op::Link { w: 0, tid: "t".into(), lid: "b".into(), env: pu.clone() }, Op::Unlink { w: 0, id: "a".into() }, Op::Unlink { w: 0, id: "t".into() },
+             Op::RmTemplate { w: 0, id: "a".into() }, Op::RmTemplate { w: 0, id: "b".into() }, Op::RmTemplate { w: 0, id: "t".into() },
+             Op::RmStatic { w: 0, id: "b".into() }, Op::RmStatic { w: 0, id: "t".into() }, Op::Unlink { w: 0, id: "b".into() },
+             Op::RmTemplate { w: 0, id: "t".into() }, Op::RmStatic { w: 0, id: "a".into() }],
+    ];
+    for ops in &directed {
+        run_history::<Core>(&case, ops, &pre, out, "directed");
+        run_history::<Api>(&case, ops, &pre, out, "directed");
+        out.cases += 1;
+    }
+    out.add("directed_histories", directed.len() as u64);
     out.add("exhaustive_histories", count);
     out.add("exhaustive_alphabet", k as u64);
     out.add("exhaustive_maxlen", maxlen as u64);
